@@ -197,7 +197,10 @@ func (p *Processor[K, T]) processLoop() {
 		select {
 		// Wait for when it's time to execute the item
 		case <-t.C():
-			p.execute(r)
+			// Go round the loop, which executes the item if it is due now.
+			// The timer firing does not imply that: an item more than the largest
+			// time.Duration (about 292 years) away gets a timer for that much only.
+			continue
 
 		// If we get a reset signal, restart the loop
 		case <-p.resetCh:
